@@ -145,3 +145,13 @@ add("C16",
     "stated_not_proved: C16_queries / C16_counts / C16_probe (registries = registries populated from the listings) as invariants over all histories. "
     "Events of the six non-utility methods follow interfaces.py ('an event is generated' per call). Known finding utilities-mixed-hashability-double-subscription.",
     "Lean 4 proof (return values / events / listing updates of the eight methods) + differential correspondence + listing oracle", "6/C16")
+add("C10",
+    "PARTIAL. Proved: the twin theorems C12_twin / c_eq_py (IB_richcompare = the Python comparison for all six operators and all operands with string names) and "
+    "C14_twin / callC_eq_callPy (IB__call__ / IB__adapt__ incl. the _CALL_CUSTOM_ADAPT dispatch = InterfaceBase.__call__) — the C decision logic is modelled "
+    "separately from the Python one and proved equal for ALL inputs. Every other check ties each twin to its own implementation mode. This check compares the two "
+    "implementations DIRECTLY on the operation streams of eight layers and on seeded odd-input API programs (results, exception types, subsequent behaviour).",
+    "stated_not_proved: equality of the remaining twin pairs (SB_extends, providedBy / implementedBy fast paths, descriptors, LookupBase / VerifyingBase) — covered by "
+    "differential execution only; nothing about the C code's conformance to its modelled logic or about memory (C11) is a theorem. Known findings "
+    "eq-foreign-nonstr-name and garbage-provides-exception-type. Old-style `__implemented__ = ...` assignments and arguments of the wrong kind (a non-interface as "
+    "`provided`, a list as lookup1's single `required`) are outside the generated programs.",
+    "Lean 4 proof (partial: twin equalities for comparison and adaptation) + direct C-vs-Python differential execution on all layers + odd-input programs", "6/C10")
